@@ -48,6 +48,22 @@ int tapped(int *src, int *out) {
     if (rc < 0 && t.count > 0u) return 1;
     return 0;
 }
+int tapped_loop(int *src, int *out, int n) {
+    struct tapctx t = { .src = src, .count = 0u };
+    struct chan c = { .run = 0, .driver = &t };
+    int rc = 0;
+    for (int i = 0; i < n && rc >= 0; ++i) rc = pump(&c, out);
+    if (t.count > 0u) return 1;
+    return 0;
+}
+int tapped_twice(int *src, int *out) {
+    struct tapctx t = { .src = src, .count = 0u };
+    struct chan c = { .run = 0, .driver = &t };
+    (void)pump(&c, out);
+    size_t before = t.count;
+    (void)pump(&c, out);
+    return t.count == before;
+}
 bool storable(double x) { return (x == 0.) || (isnormal(x) != 0); }
 bool f32_ok(float v) { return storable(v); }
 bool f64_ok(double v) { return storable(v); }
@@ -100,7 +116,13 @@ def run():
     assert rets == ['0', '0', '1'], 'tapped: the branch on t.count after pump(&c) must stay open, got %s' % rets
     ev = [e for p in eng.paths('tapped') for e in p.calls('pump')][0]
     assert dict(ev.pointees[('v', 't')][2])['count'] == sym.C(0), ev.pointees
-    return 7
+    # 8. ... also when the call sits in a loop (the pre-scan havocs the holder first), and again at a second call although
+    #    the first one havocked the holder
+    rets = sorted(set(fmt(p.ret) for p in eng.paths('tapped_loop') if p.end == 'return'))
+    assert rets == ['0', '1'], 'tapped_loop: %s' % rets
+    rets = [p.ret for p in eng.paths('tapped_twice') if p.end == 'return']
+    assert rets and all(r != sym.C(1) for r in rets), 'tapped_twice: the second call may change t.count, got %s' % [fmt(r) for r in rets]
+    return 8
 
 
 if __name__ == '__main__':
